@@ -32,6 +32,7 @@ struct Item
 	int endian = 0;   // for switches: 0 BIG 1 LITTLE 2 NATIVE
 	std::vector<uint64_t> bits; // one entry per element (scalars: 1)
 	std::string str;
+	int times = 1;              // arrays: how often the SAME Array object is written
 };
 
 uint64_t bitsOf(Prng& r, int size)
@@ -64,7 +65,7 @@ void genEndian(Prng& r, Plan& p, int)
 			p.ops.push_back(op("en", {(int64_t)r.below(3)}));
 		int t = (int)r.below(T_COUNT);
 		int64_t cnt = isArray(t) || t == T_STRING ? biased(r, 0, 100, {0, 1, 2, 100}) : -1;
-		p.ops.push_back(op("it", {t, cnt, (int64_t)(r.next() >> 20)}));
+		p.ops.push_back(op("it", {t, cnt, (int64_t)(r.next() >> 20), (int64_t)(isArray(t) && r.below(3) == 0 ? 2 + r.below(2) : 1)}));
 	}
 	if (r.below(2))
 		p.p["knob.net.frag"] = 20 + r.below(80);
@@ -103,6 +104,8 @@ std::vector<Item> itemsOf(const Plan& p)
 			}
 			else
 			{
+				if (isArray(it.type))
+					it.times = (int)std::max<int64_t>(1, std::min<int64_t>(3, o.arg(3, 1)));
 				int n = isArray(it.type) ? cnt : 1;
 				for (int i = 0; i < n; i++)
 				{
@@ -139,9 +142,10 @@ std::string reference(const std::vector<Item>& items, int endian0)
 		}
 		int sz = elemSize(it.type);
 		bool big = e == 0; // NATIVE is little-endian on this platform
-		for (uint64_t b : it.bits)
-			for (int k = 0; k < sz; k++)
-				o += (char)((b >> (8 * (big ? sz - 1 - k : k))) & 0xff);
+		for (int rep = 0; rep < it.times; rep++)
+			for (uint64_t b : it.bits)
+				for (int k = 0; k < sz; k++)
+					o += (char)((b >> (8 * (big ? sz - 1 - k : k))) & 0xff);
 	}
 	return o;
 }
@@ -189,12 +193,12 @@ void writeAll(W& w, const std::vector<Item>& items)
 		case T_DOUBLE: w << fromBits<double>(it.bits[0]); break;
 		case T_BOOL: w << (it.bits[0] != 0); break;
 		case T_STRING: w << asl::String(it.str.c_str()); break;
-		case T_ASHORT: w << arr<short>(it); break;
-		case T_AINT: w << arr<int>(it); break;
-		case T_ALONG: w << arr<asl::Long>(it); break;
-		case T_AFLOAT: w << arr<float>(it); break;
-		case T_ADOUBLE: w << arr<double>(it); break;
-		case T_ABYTE: w << arr<asl::byte>(it); break;
+		case T_ASHORT: { asl::Array<short> a = arr<short>(it); for (int rep = 0; rep < it.times; rep++) w << a; break; }
+		case T_AINT: { asl::Array<int> a = arr<int>(it); for (int rep = 0; rep < it.times; rep++) w << a; break; }
+		case T_ALONG: { asl::Array<asl::Long> a = arr<asl::Long>(it); for (int rep = 0; rep < it.times; rep++) w << a; break; }
+		case T_AFLOAT: { asl::Array<float> a = arr<float>(it); for (int rep = 0; rep < it.times; rep++) w << a; break; }
+		case T_ADOUBLE: { asl::Array<double> a = arr<double>(it); for (int rep = 0; rep < it.times; rep++) w << a; break; }
+		case T_ABYTE: { asl::Array<asl::byte> a = arr<asl::byte>(it); for (int rep = 0; rep < it.times; rep++) w << a; break; }
 		}
 	}
 }
@@ -227,6 +231,7 @@ void readAll(R& r, const std::vector<Item>& items, Mismatch& mm)
 				mm = Mismatch{true, idx - 1, it.type, it.str.size(), s.size()};
 			continue;
 		}
+		for (int rep = 0; rep < it.times; rep++)
 		for (uint64_t want : it.bits)
 		{
 			uint64_t got = 0;
@@ -305,7 +310,7 @@ void report(const char* leg, const std::string& wire, const std::string& ref, co
 				e = it.endian;
 				continue;
 			}
-			size_t len = it.type == T_STRING ? it.str.size() : it.bits.size() * (size_t)elemSize(it.type);
+			size_t len = it.type == T_STRING ? it.str.size() : it.bits.size() * (size_t)elemSize(it.type) * (size_t)it.times;
 			if (d < off + len || &it == &items.back())
 			{
 				at = &it;
